@@ -3,6 +3,7 @@ import SpoxModel.Model.Tensor
 import SpoxModel.Model.Attr
 import SpoxModel.Model.Embed
 import SpoxModel.Model.AttrRef
+import SpoxModel.Model.VarFields
 import SpoxModel.Generated.Capture
 /-! Line-protocol handler for C10: run `fromArray` / `toArray` / `construct` / the heap model on the
     request and report everything (the harness compares with the real code, field by field). -/
@@ -210,6 +211,28 @@ def handleE (req : Json) : Except String Json := do
           | .error e => Json.mkObj [("err", e.name)]
         return Json.mkObj [("name", rp.name), ("ref", match rp.refAttrName with | some x => toJson x | none => Json.null),
           ("type", toJson rp.type), ("depth", toJson a.depth), ("deref", d)]
+  | "varfields" =>
+    let parseItem (j : Json) : Except String VarFields.Item := do
+      match j with
+      | .str "none" => return .none_
+      | .str _ => return .other
+      | _ => return .var (← j.getObjValAs? Nat "var")
+    let fields ← (← req.getObjValAs? (Array Json) "fields").toList.mapM fun (fj : Json) => do
+      let kind ← match (← fj.getObjValAs? String "kind") with
+        | "single" => pure VarFields.Kind.single | "optional" => pure .optional | _ => pure .variadic
+      let gj ← fj.getObjVal? "given"
+      let given ← match (← gj.getObjValAs? String "t") with
+        | "obj" => do pure (VarFields.Given.obj (← parseItem (← gj.getObjVal? "item")))
+        | _ => do
+          let items ← (← gj.getObjValAs? (Array Json) "items").toList.mapM parseItem
+          pure (VarFields.Given.iter ⟨items, ← gj.getObjValAs? Bool "one_shot"⟩)
+      return (← fj.getObjValAs? String "name", kind, given)
+    match VarFields.storeAll fields with
+    | .error e => return Json.mkObj [("err", e.name)]
+    | .ok st =>
+      let pair (p : String × Option Nat) : Json := Json.arr #[toJson p.1, match p.2 with | some n => toJson n | none => Json.null]
+      return Json.mkObj [("flat", Json.arr ((VarFields.flatten st).map pair).toArray),
+        ("vars", Json.arr ((VarFields.getVars st).map fun p => Json.arr #[toJson p.1, toJson p.2]).toArray)]
   | "capture" =>
     let mode ← parseMode (← req.getObjValAs? String "mode")
     let kind ← req.getObjValAs? String "kind"
